@@ -7,6 +7,7 @@
 //   analyse <slot> <mslot>              -> analyse type=<t> model=<hash> <issues> unchanged=<0|1>
 //   analysex <slot> <mslot> <c> <v>     the same with variable c.v marked as external (plain analyse removes the marks)
 //   generate <gslot> <aslot> C|PY       -> generate code=<hash>
+//   eqcode <aslot> D|PY                 -> eqcode text=<hash>   (static Generator::equationCode, default / Python profile)
 //   resolve <islot> <mslot> <dir>       -> resolve <0|1> <issues>
 //   flatten <islot> <mslot> <fslot>     -> flatten null|dump=<hash> <issues> unchanged=<0|1> library=<0|1>
 //   clearlib <islot>
@@ -129,6 +130,18 @@ int main()
             g->setModel(a->model());
             g->setProfile(GeneratorProfile::create(t.at(3) == "PY" ? GeneratorProfile::Profile::PYTHON : GeneratorProfile::Profile::C));
             std::cout << "generate code=" << H64(g->interfaceCode() + "\n=====\n" + g->implementationCode()) << std::endl;
+        } else if (c == "eqcode") {
+            // eqcode <aslot> D|PY: Generator::equationCode of every equation of the analysed model, with the default profile
+            // (no profile argument) or with an explicit Python profile
+            auto a = analysers.at(slot(1));
+            std::string all;
+            auto am = a->model();
+            for (size_t i = 0; am != nullptr && i < am->equationCount(); ++i) {
+                auto ast = am->equation(i)->ast();
+                if (ast == nullptr) continue;
+                all += (t.at(2) == "PY" ? Generator::equationCode(ast, GeneratorProfile::create(GeneratorProfile::Profile::PYTHON)) : Generator::equationCode(ast)) + "\n";
+            }
+            std::cout << "eqcode text=" << H64(all) << std::endl;
         } else if (c == "resolve") {
             auto im = importers.at(slot(1));
             auto m = models.at(slot(2));
